@@ -50,3 +50,90 @@ let c16 ?(model : (econfig -> Extracted.string option) option) (path : ostring) 
   let cls = Hashtbl.fold (fun k v acc -> Printf.sprintf "\"%s\":%d" (json_escape k) v :: acc) classes [] in
   Printf.printf "{\"cases\":%d,\"gen_mismatch\":%d,\"spec_checked\":%d,\"spec_violation\":%d,\"calls_violation\":%d,\"classes\":{%s}}\n"
     !n !bad_gen !spec_checked !bad_spec !bad_calls (Stdlib.String.concat "," (List.sort compare cls))
+
+(* ---- C15 ----  line: <serialised error> | <Error() hex> <perm> <trans>
+   or: NIL | - perm trans ; or: N <situation> <texthex> <flags> perm trans *)
+let parse_err (toks : ostring array) : err option =
+  let pos = ref 0 in
+  let next () = let t = toks.(!pos) in incr pos; t in
+  let cs h = coqstring_of_string (unhex h) in
+  let rec value () : err =
+    match next () with
+    | "P" -> EPlain (cs (next ()))
+    | "S" ->
+      let t = next () in
+      (match t with
+       | "c" -> ESent SCanceled | "d" -> ESent SDeadline | "i" -> ESent SInvalidConfig
+       | "p" -> ESent SPermissionDenied | "b" -> ESent SBucketNotFound
+       | _ -> ESent (SOther (cs (Stdlib.String.sub t 2 (Stdlib.String.length t - 2)))))
+    | "W" -> let pre = cs (next ()) in let post = cs (next ()) in let i = value () in EWrap (pre, i, post)
+    | "T" -> let op = cs (next ()) in let d = cs (next ()) in let i = opt () in ETimeout (op, d, i)
+    | "E" -> let a = cs (next ()) in let b = cs (next ()) in let c = cs (next ()) in let i = opt () in EElection (a, b, c, i)
+    | "K" -> let a = cs (next ()) in let b = cs (next ()) in let c = cs (next ()) in let i = opt () in ETokenVal (a, b, c, i)
+    | "V" ->
+      let f = cs (next ()) in
+      let v = (match next () with "1" -> Some (cs (next ())) | _ -> None) in
+      let r = cs (next ()) in
+      let i = opt () in
+      EValidation (f, v, r, i)
+    | t -> failwith ("bad error token " ^ t)
+  and opt () : err option = match next () with "1" -> Some (value ()) | _ -> None in
+  if toks.(0) = "NIL" then None else Some (value ())
+
+let c15 ?(model : ((err option -> bool) * (err option -> bool)) option) (path : ostring) (mm : ostring) : unit =
+  let oc = open_out mm in
+  let n = ref 0 and bad_gen = ref 0 and bad_spec = ref 0 and bad_text = ref 0 and nats = ref 0 and bad_nats = ref 0 in
+  let classes = Hashtbl.create 16 in
+  let bump k = Hashtbl.replace classes k (1 + try Hashtbl.find classes k with Not_found -> 0) in
+  iter_lines path (fun _ line ->
+      match Stdlib.String.index_opt line '|' with
+      | None ->
+        let f = fields line in
+        if Array.length f = 6 && f.(0) = "N" then begin
+          (* NATS sentinel: representable as plain text only if no errors.Is / errors.As flag is set *)
+          incr nats;
+          let e = Some (EPlain (coqstring_of_string (unhex f.(2)))) in
+          if f.(3) <> "000000" then begin
+            incr bad_nats; Printf.fprintf oc "NATSREP %s\n" line
+          end;
+          let perm = f.(4) = "1" and trans = f.(5) = "1" in
+          (match model with
+           | Some (ip, it) ->
+             if ip e <> perm || it e <> trans then begin incr bad_gen; Printf.fprintf oc "GEN %s | model=%b,%b\n" line (ip e) (it e) end
+           | None -> ());
+          (match nats_situation_permanent (coqstring_of_string f.(1)) with
+           | Some p -> if perm <> p || trans <> not p then begin incr bad_spec; Printf.fprintf oc "SPEC %s | nats situation must be permanent=%b\n" line p end
+           | None -> ())
+        end
+      | Some bar ->
+        incr n;
+        let lhs = fields (Stdlib.String.sub line 0 bar) in
+        let rhs = fields (Stdlib.String.sub line (bar + 1) (Stdlib.String.length line - bar - 1)) in
+        let oe = parse_err lhs in
+        let perm = rhs.(1) = "1" and trans = rhs.(2) = "1" in
+        (match oe with
+         | Some e ->
+           let m = string_of_coqstring (msg e) in
+           if m <> unhex rhs.(0) then begin
+             incr bad_text;
+             if !bad_text <= max_report then Printf.fprintf oc "TEXT %s | model-text=%s\n" line (hex m)
+           end;
+           let k = (match required_class e with Some true -> "must-permanent" | Some false -> "must-transient" | None -> "free")
+                   ^ (if perm then "/perm" else "/trans") in
+           bump k
+         | None -> bump "nil");
+        (match model with
+         | Some (ip, it) ->
+           if ip oe <> perm || it oe <> trans then begin
+             incr bad_gen;
+             if !bad_gen <= max_report then Printf.fprintf oc "GEN %s | model=%b,%b\n" line (ip oe) (it oe)
+           end
+         | None -> ());
+        if not (class_ok oe perm trans) then begin
+          incr bad_spec;
+          if !bad_spec <= max_report then Printf.fprintf oc "SPEC %s | classification (perm=%b, trans=%b) not allowed by the property\n" line perm trans
+        end);
+  close_out oc;
+  let cls = Hashtbl.fold (fun k v acc -> Printf.sprintf "\"%s\":%d" (json_escape k) v :: acc) classes [] in
+  Printf.printf "{\"cases\":%d,\"gen_mismatch\":%d,\"text_mismatch\":%d,\"spec_violation\":%d,\"nats_values\":%d,\"nats_unrepresentable\":%d,\"classes\":{%s}}\n"
+    !n !bad_gen !bad_text !bad_spec !nats !bad_nats (Stdlib.String.concat "," (List.sort compare cls))
